@@ -49,6 +49,7 @@ CONSTANTS
   MaxOps = {ops}
 INVARIANT HeapMeaning
 INVARIANT HeapSizes
+INVARIANT HeapAsMatrix
 INVARIANT InversesInvert
 INVARIANT ReducedNormal
 INVARIANT Emit
@@ -116,6 +117,11 @@ def execute_session(case: dict) -> dict:
             tol = 3e-4 if not any(e['op'] == 'I' for e in case['hist']) else 2e-3
             out['ok'], out['err'] = _close(M, want, tol)
             out['sizes_ok'] = (int(r.out_size()), int(r.in_size())) == (want.shape[0], want.shape[1])
+            import numpy as np
+            am_ok, _ = _close(np.asarray(r.as_matrix(), dtype=np.float64), want, tol)
+            if not am_ok:
+                out['ok'] = False
+                out['as_matrix_differs'] = True
         # every earlier object must still denote its own meaning: operations never mutate their operands
         for k, obj in enumerate(heap[:-1]):
             if obj is None or case['errs'][k]:
